@@ -1,4 +1,5 @@
-"""Multi-agent mini-domains (DESIGN §4 C15/C16): every action names exactly one agent (its first parameter)."""
+"""Multi-agent mini-domains (DESIGN §4 C15/C16): the executing agent of a call is its first argument that is an agent
+(ma1-ma3: the first argument; ma4: an item comes first)."""
 from .. import sexp
 from ..refsem import RefDomain, RefProblem
 
@@ -64,7 +65,28 @@ MA2B = (MA2[0].replace("(define (domain ma2)", "(define (domain ma2b)").replace(
         MA2[1].replace("(:domain ma2)", "(:domain ma2b)").replace("(problem ma2p)", "(problem ma2bp)"))
 assert MA2B[0] != MA2[0] and ":numeric-fluents" not in MA2B[0]
 
-ALL = {"ma1": MA1, "ma2": MA2, "ma3": MA3, "ma2b": MA2B}
+# the agent is NOT the first parameter (an item comes first); give names two agents, the first of them executes
+MA4 = (f"""(define (domain ma4)
+{REQ}
+(:types agent item - object)
+(:predicates (free ?i - item) (has ?a - agent ?i - item) (busy ?a - agent))
+(:action fetch :parameters (?i - item ?a - agent)
+  :precondition (and (free ?i)) :effect (and (not (free ?i)) (has ?a ?i)))
+(:action mark :parameters (?a - agent) :precondition (and (not (busy ?a))) :effect (and (busy ?a)))
+(:action give :parameters (?i - item ?a - agent ?b - agent)
+  :precondition (and (has ?a ?i)) :effect (and (not (has ?a ?i)) (has ?b ?i))))
+""", """(define (problem ma4p) (:domain ma4)
+(:objects {agents} - agent i1 i2 - item)
+(:init (free i1) (free i2))
+(:goal (and (busy a1))))
+""")
+
+ALL = {"ma1": MA1, "ma2": MA2, "ma3": MA3, "ma2b": MA2B, "ma4": MA4}
+
+
+def agent_of(call_args, agents):
+    """the executing agent of a call: its first argument that is an agent"""
+    return next((x for x in call_args if x in agents), None)
 
 
 def texts(name, n_agents):
@@ -80,10 +102,11 @@ def ref(name, n_agents):
 
 
 def agent_calls(dom, objs, agents):
-    """agent -> list of (action, args) whose first argument is that agent"""
+    """agent -> list of (action, args) executed by that agent (the first argument that is an agent)"""
     out = {a: [] for a in agents}
     for act in dom.actions.values():
         for args in dom.calls(act, objs):
-            if args and args[0] in out:
-                out[args[0]].append((act.name, args))
+            ag = agent_of(args, out)
+            if ag is not None:
+                out[ag].append((act.name, args))
     return out
